@@ -609,7 +609,7 @@ func c17Run(t *testing.T, c *evid.Collector) {
 			var real []disc
 			for _, d := range ds {
 				if strings.HasPrefix(d.Kind, "inconclusive:") {
-					c.Inconclusive(d.Detail)
+					c.Unjudged(d.Detail)
 					continue
 				}
 				real = append(real, d)
